@@ -141,6 +141,57 @@ def small_scope(assertions: list, timeout_ms: int = 4000, scopes: tuple = (1, 2,
     return None
 
 
+def split_goal(g: Any, limit: int = 24) -> list:
+    """A => (b1 /\ ... /\ bn)  ~>  [A => b1, ..., A => bn]   (recursively; conjunctions only)"""
+    if not z3.is_expr(g) or not z3.is_app(g):
+        return [g]
+    k = g.decl().kind()
+    if k == z3.Z3_OP_AND:
+        out: list = []
+        for c in g.children():
+            out += split_goal(c, limit)
+        return out if len(out) <= limit else [g]
+    if k == z3.Z3_OP_IMPLIES:
+        a, b = g.children()
+        parts = split_goal(b, limit)
+        if len(parts) > 1:
+            return [z3.Implies(a, p) for p in parts]
+    return [g]
+
+
+def discharge_all(obs: list, second_opinion: bool = False) -> None:
+    """Discharge a function's obligations; those sharing a path condition share one incremental solver."""
+    groups: dict[int, list] = {}
+    for ob in obs:
+        if ob.status == "open" and ob.kind != "cover":
+            groups.setdefault(id(ob.pc), []).append(ob)
+    for grp in groups.values():
+        s = z3.Solver()
+        s.set("timeout", 1500)
+        s.set("smt.mbqi", False)      # proofs here need E-matching only; MBQI (model finding) just burns the budget
+        for c in grp[0].pc:
+            if c is True:
+                continue
+            s.add(z3.BoolVal(False) if c is False else c)
+        for ob in grp:
+            t0 = time.time()
+            ok = True
+            for part in split_goal(ob.goal):
+                s.push()
+                s.add(z3.Not(part))
+                r = s.check()
+                s.pop()
+                if r != z3.unsat:
+                    ok = False
+                    break
+            if ok:
+                ob.status = "proved"
+                ob.backend = "z3-5.1.0"
+                ob.ms = (time.time() - t0) * 1000
+    for ob in obs:
+        discharge(ob, second_opinion=second_opinion)
+
+
 _BUDGET = {"expensive_left": 6}
 
 
@@ -183,8 +234,32 @@ def discharge(ob: Obligation, want_model: bool = True, second_opinion: bool = Fa
     assertions = [c for c in ob.pc if c is not True and c is not False] + [z3.Not(ob.goal)]
     if any(c is False for c in ob.pc):
         assertions.append(z3.BoolVal(False))
-    s.set("timeout", min(3000, Z3_TIMEOUT_MS))
+    # conjunct by conjunct, a fresh solver each (incremental solvers degrade on these quantified queries)
+    parts = split_goal(ob.goal)
+    if len(parts) > 1:
+        all_ok = True
+        ctx2 = z3.Context()          # a fresh context: solver behaviour on these queries depends on context history
+        pc2 = [(z3.BoolVal(False, ctx2) if c is False else c.translate(ctx2)) for c in ob.pc if c is not True]
+        for part in parts:
+            sp = z3.Solver(ctx=ctx2)
+            sp.set("timeout", min(6000, Z3_TIMEOUT_MS))
+            sp.set("smt.mbqi", False)
+            sp.add(*pc2)
+            sp.add(z3.Not(part.translate(ctx2)))
+            if sp.check() != z3.unsat:
+                all_ok = False
+                break
+        if all_ok:
+            ob.status = "proved"
+            ob.ms = (time.time() - t0) * 1000
+            return
+    s.set("timeout", min(4000, Z3_TIMEOUT_MS))
+    s.set("smt.mbqi", False)
     r = s.check()
+    if r != z3.unsat:
+        s.set("smt.mbqi", True)
+        s.set("timeout", min(3000, Z3_TIMEOUT_MS))
+        r = s.check()
     ob.backend = "z3-5.1.0"
     budget = _BUDGET
     if r != z3.unsat and budget["expensive_left"] <= 0:
